@@ -118,7 +118,7 @@ def execute(plan, ctx):
         name = op[0]
         if name == "commit":
             if conn is not None:
-                conn.commit()
+                common.commit(conn, ctx)
                 ctx.ev("commit")
             continue
         model.apply(op)
